@@ -432,6 +432,18 @@ package manager
 //@   ensures not_stopped: implies(old(mgr.converterJobRunning), mgr.converterJobRunning)
 //@   loop 1 invariant ncalls("(*Manager).getIndexesCopy") == 0 && mgr.converterJobRunning == old(mgr.converterJobRunning) && !mgr.converterJobRunning
 
+// shutting down closes converters, listeners and endpoints; the index files stay open for whoever still holds them
+// (a view that is read after Close, a job that is still running): no reader is closed and no file removed here,
+// and the table of holders is not touched
+//@ func (*Manager).Close$1
+//@   prop C13
+//@   nosafety
+//@   noframe
+//@   ensures readers_stay_open: ncalls("(*github.com/spq/pkappa2/internal/index.Reader).Close") == 0 && ncalls("os.Remove") == 0 && ncalls("(*indexReleaser).release") == 0
+//@   loop 1 invariant ncalls("(*github.com/spq/pkappa2/internal/index.Reader).Close") == 0 && ncalls("os.Remove") == 0 && ncalls("(*indexReleaser).release") == 0
+//@   loop 2 invariant ncalls("(*github.com/spq/pkappa2/internal/index.Reader).Close") == 0 && ncalls("os.Remove") == 0 && ncalls("(*indexReleaser).release") == 0
+//@   loop 3 invariant ncalls("(*github.com/spq/pkappa2/internal/index.Reader).Close") == 0 && ncalls("os.Remove") == 0 && ncalls("(*indexReleaser).release") == 0
+
 // ---------------------------------------------------------------------------
 // C16: converter output belongs to the stream's current data. Sequential kernel: when an import changed streams
 // (import completion above: invalidateConverters runs exactly when index files were created, with the set of
